@@ -96,6 +96,12 @@ class Intervals:
             return None
         if k == "param":
             return self.tr(self.fn.local_ty(e[1]))
+        if k == "static" and self.prog is not None:
+            st = self.prog.statics.get(e[1])
+            v = st.get("value") if st else None
+            if isinstance(v, int) and not isinstance(v, bool):
+                return (v, v)
+            return None
         if k == "local":
             return self.local_interval(e[1])
         if k == "ovf":
